@@ -76,7 +76,10 @@ var verif_destruct(var p) {
   if (i >= 0) {
     finalised[i]++;
     if (freed[i]) order_ok = 0;
-#ifndef NO_OWNERSHIP
+#if defined(OP) && OP == 12     /* OP_SWEEP_OWN: the edge is fixed (cell 0 owns cell 1) so that the re-entrant removal folds */
+    { static int in_owner_del = 0;     /* the owner's destructor runs its del(owned) once; a nested destruct does not re-enter (keeps the unrolling finite) */
+      if (i == 0 && !in_owner_del) { in_owner_del = 1; GC_Rem(G, cell_at(1)); in_owner_del = 0; } }
+#elif !defined(NO_OWNERSHIP)
     if (IN.own[i] >= 0 && IN.own[i] < NC && IN.own[i] != i) GC_Rem(G, cell_at(IN.own[i]));   /* Box_Del: del(owned) -> rem(current(GC), owned) */
 #endif
   }
@@ -361,6 +364,7 @@ V_HARNESS {
     gc->entries[2].ptr = cell_at(second); gc->entries[2].hash = 3; gc->entries[2].marked = IN.marked[1] & 1;
     gc->nitems = 2;
     V_ASSUME(IN.GH[first] == 1 && IN.GH[second] == 2);
+    probe_ptr = cell_at(1); probe_hash = (first == 1) ? 1 : 2;      /* the owned object's hash is a constant: the nested removal's slot arithmetic folds */
     for (long i = 0; i < NC; i++) V_ASSUME(IN.own[i] == (i == 0 ? 1 : -1));
     V_ASSUME(inv(gc, NS, 0));
     _Bool owner_marked = first == 0 ? (IN.marked[0] & 1) : (IN.marked[1] & 1);
